@@ -226,7 +226,7 @@ func prefixEach(xs []string, sep string) string {
 func (f *g2lFn) varsNT(vs []*types.Var, at ast.Node) []nameType {
 	out := []nameType{}
 	for _, v := range vs {
-		out = append(out, nameType{leanIdent(v.Name()), f.leanType(v.Type(), at)})
+		out = append(out, nameType{f.varName(v), f.leanType(v.Type(), at)})
 	}
 	return out
 }
